@@ -145,12 +145,14 @@ def run(ctx):
             flt = r.rint(0, sum(inp) - 1)
             det = "none"
             thr_modes = []
-        elif r.chance(1, 6) and sum(inp) >= 2:
+        elif r.chance(1, 6) and sum(inp) >= 2 and n_tot <= 3:
             # default precision with a very weak source and a filter asking for every photon: the states that can pass
             # are far less likely than the ones the filter rejects (trimming must be relative to what can pass)
-            # per-photon probability e with e^n between 1e-9 and 1e-6 (under the default relative precision
+            # per-photon probability e with e^n between 1e-9 and 1e-6, n the total photon number (under the default relative precision
             # of the all-vacuum state, far above the absolute floor min_p = 1e-16)
-            e = r.choice([0.0002, 0.0005, 0.001] if sum(inp) == 2 else [0.002, 0.005, 0.01])
+            # (herald photons come from the same source: n counts them too — with four photons the passing states would
+            #  fall under the absolute floor, which is the documented approximation and not what this case is about)
+            e = r.choice([0.0002, 0.0005, 0.001] if n_tot == 2 else [0.002, 0.005, 0.01])
             br = r.choice([0.05, 0.1])
             noise = dict(brightness=br, g2=0.0, indistinguishability=r.choice([1.0, 0.9]), transmittance=e / br)
             flt = sum(inp)
